@@ -239,7 +239,7 @@ pub fn exec_sync(inst: &mut Inst, m: DMode, dp: &DriverPlan, ndisp: usize, pool_
             sum.findings.push(panic_finding(p, m.name()));
             continue;
         }
-        let opts = EOpts { expect_tl: m.runs_tl(), caller_thread: out.caller, outer_mode: m.outer() };
+        let opts = EOpts { expect_tl: m.runs_tl(), caller_thread: out.caller, outer_mode: m.outer() , top_mult: 1};
         let st = e_oracle(&inst.plan, &out.events, &opts, &mut sum.findings);
         sum.order_hashes.push(st.order_hash);
         add_stats(&mut sum.est, &st);
@@ -361,7 +361,7 @@ pub fn exec_async(plan: &Plan, twin: &Layout, pool: &Pool, pool_size: usize, dp:
             continue;
         }
         let evs = ctx.log.since(0);
-        let opts = EOpts { expect_tl: true, caller_thread: caller, outer_mode: "async" };
+        let opts = EOpts { expect_tl: true, caller_thread: caller, outer_mode: "async" , top_mult: 1};
         let st = e_oracle(plan, &evs, &opts, &mut sum.findings);
         sum.order_hashes.push(st.order_hash);
         add_stats(&mut sum.est, &st);
